@@ -68,6 +68,12 @@ def run(tier, seed):
             if n % 1500 == 7:
                 run.sample({"hist": case["hist"], "strings": r["strings"], "expected_segs": case["segs"]})
             n += 1
+        # beyond the exhaustive bound: random behaviours of 8 commands (all one-step extensions of each 7-command prefix)
+        sres, vals = engine.simulate_cases(work, "MC_C01", {"MaxCmds": 8, "NVar": 2}, num=(2 if tier == "quick" else 60), depth=10, seed=seed + 1)
+        run.add_tlc(sres, "PathInterp by TLC -simulate: %d behaviours of 8 commands" % sres["behaviours"])
+        for case, r in engine.replay("harness.c01", [{"hist": v[1], "segs": v[2], "seed": seed} for v in vals]):
+            run.record(case, r, key=r["class"])
+        run.extra["simulated_behaviours_replayed"] = len(vals)
         from . import c01_lex, c01_trace
         c01_lex.run_into(run, work, tier, seed)
         c01_trace.run_into(run, work, tier, seed)
